@@ -441,6 +441,17 @@ func (p *proxyConn) writeResponse(res *http.Response) error {
 		}
 	}
 
+	// A body that the transport transparently decompressed has lost its
+	// Content-Length. Delimit it explicitly, otherwise the client cannot tell
+	// where the response ends on a persistent connection.
+	if res.Uncompressed && res.ContentLength < 0 && len(res.TransferEncoding) == 0 && !isHeaderOnlySpec(res) {
+		if req.ProtoAtLeast(1, 1) {
+			res.TransferEncoding = []string{"chunked"}
+		} else {
+			res.Close = true
+		}
+	}
+
 	if res.Close {
 		res.Header.Add("Connection", "close")
 	}
